@@ -1,4 +1,5 @@
 import PbVerif.Lemmas.PSpline
+import PbVerif.Lemmas.PSplineX
 /-! C07 — penalised-spline baselines solve the documented P-spline system: assembly theorems (the
 solver is certified per output by an exact backward error in the correspondence). -/
 namespace PbVerif.C07
@@ -38,5 +39,82 @@ theorem interp_bounds (xs vs : List Rat) (lo hi t : Rat) (hx : xs.Pairwise (· <
 example : basisMidpoints (apKnots 0 1 9) 3 = [2, 3, 4, 5, 6] ∧ basisMidpoints (apKnots 0 1 7) 2 = [3/2, 5/2, 7/2, 9/2] := by decide +kernel
 example : (asmPspline 1 3 2 10 (designRows [-1, 0, 1, 2, 3] 1 [0, 1/2, 1]) [1, 2, 3] [1, 1, 1]).1 =
     [[45/4, 165/4, 10], [-79/4, -20, 0], [10, 0, 0]] := by decide +kernel
+
+/-! ### full-band layout (`PSpline.lower = False`) and the systems of `pspline_iasls`, `pspline_drpls`, `pspline_aspls`
+(`spline.py`; the arrays are the `lhs`, `rhs` that `PSpline.solve_pspline` hands to `PenalizedSystem.solve`) -/
+
+/-- `_lower_to_full` keeps the matrix -/
+theorem lowerToFull_den (ab : List (List Rat)) (R n : Nat) (h : TblShape ab R n) (hR : 1 ≤ R) (i j : Nat) (hi : i < n) (hj : j < n) :
+    denFull (lowerToFullQ ab) (R - 1) i j = denLower ab i j := denFull_lowerToFullQ ab R n h hR i j hi hj
+/-- `_add_diagonals(a, b, lower_only=False)` adds the denoted matrices (odd row counts: the code raises on an odd mismatch) -/
+theorem addDiagonalsFull_den (a b : List (List Rat)) (ua ub n : Nat) (ha : TblShape a (2 * ua + 1) n) (hb : TblShape b (2 * ub + 1) n) (i j : Nat) :
+    denFull (addDiagonalsFull a b n) (max ua ub) i j = denFull a ua i j + denFull b ub i j := Lemmas.addDiagonalsFull_den a b ua ub n ha hb i j
+/-- `_shift_rows(P[::-1] * w, u, u)` denotes `diag(w)·Pᵀ` for EVERY full-band table with `2u+1` rows (padded or not) -/
+theorem shiftRows_reverse_colscale_any (P : List (List Rat)) (u n : Nat) (w : List Rat) (h : TblShape P (2 * u + 1) n) (hw : w.length = n)
+    (i j : Nat) (hi : i < n) (hj : j < n) :
+    denFull (shiftRows (colScale P.reverse w) u u) u i j = w.getD i 0 * denFull P u j i := denFull_shift_rev_colScale P u n w h hw i j hi hj
+
+/-- **pspline_iasls** (lower bands, `banded_solver` 1–3): `lhs` denotes `B'W²B + λ₁ B'D₁'D₁B + λ D'D`, the extra penalty being the dense
+double sum `Σ_k Σ_l B[k,i] (D₁'D₁)[k,l] B[l,j]` over the N ≥ 2 data points -/
+theorem pspline_iasls_extra (deg nb d : Nat) (lam lam1 : Rat) (rows : List Row) (ys ws : List Rat) (h : RowsWf deg nb rows)
+    (hy : ys.length = rows.length) (hw : ws.length = rows.length) (hN : 2 ≤ rows.length) (i j : Nat) (hi : i < nb) (hj : j < nb) :
+    denLower (asmPIasls deg nb d lam lam1 rows ys ws true).1 i j = docPIasls deg nb d lam lam1 rows ws i j :=
+  piasls_asm_den_lower deg nb d lam lam1 rows ys ws h hy hw hN i j hi hj
+/-- … full bands (`banded_solver = 4`); `d < nb` is the `ValueError` guard of `PSpline.__init__`, `deg < nb` holds as `nb = num_knots + deg − 1` -/
+theorem pspline_iasls_extra_full (deg nb d : Nat) (lam lam1 : Rat) (rows : List Row) (ys ws : List Rat) (h : RowsWf deg nb rows)
+    (hy : ys.length = rows.length) (hw : ws.length = rows.length) (hN : 2 ≤ rows.length) (hdeg : deg < nb) (hd : d < nb)
+    (i j : Nat) (hi : i < nb) (hj : j < nb) :
+    denFull (asmPIasls deg nb d lam lam1 rows ys ws false).1 (nb - 1) i j = docPIasls deg nb d lam lam1 rows ws i j :=
+  piasls_asm_den_full deg nb d lam lam1 rows ys ws h hy hw hN hdeg hd i j hi hj
+/-- … and the right-hand side is `B'W²y + λ₁ B'D₁'D₁y` -/
+theorem pspline_iasls_extra_rhs (deg nb d : Nat) (lam lam1 : Rat) (rows : List Row) (ys ws : List Rat) (lower : Bool) (h : RowsWf deg nb rows)
+    (hy : ys.length = rows.length) (hw : ws.length = rows.length) (hN : 2 ≤ rows.length) (c : Nat) (hc : c < nb) :
+    (asmPIasls deg nb d lam lam1 rows ys ws lower).2.getD c 0 = btySpec deg rows ys (ws.map fun v => v * v) c + lam1 * btd1yAt deg rows ys c :=
+  piasls_asm_rhs deg nb d lam lam1 rows ys ws lower h hy hw hN c hc
+
+/-- **pspline_drpls**: `lhs` denotes `B'WB + D₁'D₁ + λ (I − η W̃) D'D` for any vector `wt` with one entry per basis function -/
+theorem pspline_drpls_asm_den (deg nb d : Nat) (lam eta : Rat) (rows : List Row) (ys ws wt : List Rat) (h : RowsWf deg nb rows)
+    (hy : ys.length = rows.length) (hw : ws.length = rows.length) (hwt : wt.length = nb) (hd : 1 ≤ d)
+    (i j : Nat) (hi : i < nb) (hj : j < nb) :
+    denFull (asmPDrpls deg nb d lam eta rows ys ws wt).1 (d + (deg - d)) i j = docPDrpls deg nb d lam eta rows ws wt i j :=
+  pdrpls_asm_den deg nb d lam eta rows ys ws wt h hy hw hwt hd i j hi hj
+/-- … in particular with `W̃ = np.interp(_basis_midpoints(knots, deg), x, w)` on a knot vector of `num_knots + 2·deg` knots -/
+theorem pspline_drpls_asm_den_midpoints (deg d numKnots : Nat) (lam eta : Rat) (knots xs ys ws : List Rat)
+    (hk : knots.length = numKnots + 2 * deg) (h2 : 2 ≤ numKnots) (hy : ys.length = xs.length) (hw : ws.length = xs.length) (hd : 1 ≤ d)
+    (i j : Nat) (hi : i < knots.length - (deg + 1)) (hj : j < knots.length - (deg + 1)) :
+    denFull (asmPDrpls deg (knots.length - (deg + 1)) d lam eta (designRows knots deg xs) ys ws (interpMid knots xs ws deg)).1 (d + (deg - d)) i j
+      = docPDrpls deg (knots.length - (deg + 1)) d lam eta (designRows knots deg xs) ws (interpMid knots xs ws deg) i j := by
+  have hwf := designRows_wf knots deg xs (by omega)
+  exact pdrpls_asm_den deg _ d lam eta _ ys ws _ hwf.1 (by rw [hwf.2, hy]) (by rw [hwf.2, hw])
+    (interpMid_length knots xs ws deg numKnots hk h2) hd i j hi hj
+/-- **pspline_aspls**: `lhs` denotes `B'WB + λ diag(α̃) D'D` -/
+theorem pspline_aspls_asm_den (deg nb d : Nat) (lam : Rat) (rows : List Row) (ys ws at_ : List Rat) (h : RowsWf deg nb rows)
+    (hy : ys.length = rows.length) (hw : ws.length = rows.length) (hat : at_.length = nb)
+    (i j : Nat) (hi : i < nb) (hj : j < nb) :
+    denFull (asmPAspls deg nb d lam rows ys ws at_).1 (d + (deg - d)) i j = docPAspls deg nb d lam rows ws at_ i j :=
+  paspls_asm_den deg nb d lam rows ys ws at_ h hy hw hat i j hi hj
+theorem pspline_aspls_asm_den_midpoints (deg d numKnots : Nat) (lam : Rat) (knots xs ys ws alpha : List Rat)
+    (hk : knots.length = numKnots + 2 * deg) (h2 : 2 ≤ numKnots) (hy : ys.length = xs.length) (hw : ws.length = xs.length)
+    (i j : Nat) (hi : i < knots.length - (deg + 1)) (hj : j < knots.length - (deg + 1)) :
+    denFull (asmPAspls deg (knots.length - (deg + 1)) d lam (designRows knots deg xs) ys ws (interpMid knots xs alpha deg)).1 (d + (deg - d)) i j
+      = docPAspls deg (knots.length - (deg + 1)) d lam (designRows knots deg xs) ws (interpMid knots xs alpha deg) i j := by
+  have hwf := designRows_wf knots deg xs (by omega)
+  exact paspls_asm_den deg _ d lam _ ys ws _ hwf.1 (by rw [hwf.2, hy]) (by rw [hwf.2, hw])
+    (interpMid_length knots xs alpha deg numKnots hk h2) i j hi hj
+/-- the right-hand side of both is `B'Wy` -/
+theorem pspline_drpls_aspls_rhs (deg nb d : Nat) (lam eta : Rat) (rows : List Row) (ys ws wt : List Rat) (h : RowsWf deg nb rows)
+    (hy : ys.length = rows.length) (hw : ws.length = rows.length) (c : Nat) (hc : c < nb) :
+    (asmPDrpls deg nb d lam eta rows ys ws wt).2.getD c 0 = btySpec deg rows ys ws c ∧
+    (asmPAspls deg nb d lam rows ys ws wt).2.getD c 0 = btySpec deg rows ys ws c :=
+  ⟨bty_eq deg nb rows ys ws h hy hw c hc, bty_eq deg nb rows ys ws h hy hw c hc⟩
+
+example : asmPIasls 1 3 2 10 (1/2) (designRows [-1, 0, 1, 2, 3] 1 [0, 1/2, 1]) [1, 2, 3] [1, 1/2, 1] true =
+    ([[181/16, 661/16, 10], [-323/16, -20, 0], [10, 0, 0]], [3/4, 15/4, 0]) := by decide +kernel
+example : (asmPIasls 1 3 2 10 (1/2) (designRows [-1, 0, 1, 2, 3] 1 [0, 1/2, 1]) [1, 2, 3] [1, 1/2, 1] false).1 =
+    [[0, 0, 10], [0, -323/16, -20], [181/16, 661/16, 10], [-323/16, -20, 0], [10, 0, 0]] := by decide +kernel
+example : (asmPDrpls 1 3 2 10 (1/2) (designRows [-1, 0, 1, 2, 3] 1 [0, 1/2, 1]) [1, 2, 3] [1, 1/2, 1] (interpMid [-1, 0, 1, 2, 3] [0, 1/2, 1] [1, 1/2, 1] 1)).1 =
+    [[0, 0, 5], [0, -87/8, -11], [57/8, 185/8, 6], [-87/8, -11, 0], [5, 0, 0]] := by decide +kernel
+example : (asmPAspls 1 3 2 10 (designRows [-1, 0, 1, 2, 3] 1 [0, 1/2, 1]) [1, 2, 3] [1, 1, 1] (interpMid [-1, 0, 1, 2, 3] [0, 1/2, 1] [1, 1/2, 1/4] 1)).1 =
+    [[0, 0, 10], [0, -79/4, -5], [45/4, 45/4, 5/2], [-19/4, -5, 0], [5/2, 0, 0]] := by decide +kernel
 
 end PbVerif.C07
